@@ -132,7 +132,8 @@ def gen(rng, tier):
                "nquic": rng.choice([1, 2]), "explicit": rng.random() < 0.25}
     for i in range(40 if tier == "quick" else 200):
         yield {"family": "headers", "kind": "headers", "date": rng.random() < 0.7, "server": rng.random() < 0.7,
-               "alt": rng.choice([[], ['h3=":443"; ma=3600'], ['h3=":443"', 'h3-29=":443"']]), "proto": rng.choice(["h11", "h2", "h3"])}
+               "alt": rng.choice([[], ['h3=":443"; ma=3600'], ['h3=":443"', 'h3-29=":443"']]), "proto": rng.choice(["h11", "h2", "h3"]),
+               "tz": rng.choice([None, None, "JST-9", "EST5EDT", "UTC0", "NPT-5:45", "AST4"])}
     # the date on the wire (real serve(), real clock): every response says when *it* was sent - also the later ones of a connection that
     # has been open for a while, also the first one of a connection that had been idle before its request came
     for be in ("asyncio", "trio"):
@@ -440,9 +441,22 @@ def run_one(case, tally):
             cfg.include_date_header = case["date"]
             cfg.include_server_header = case["server"]
             cfg.alt_svc_headers = list(case["alt"])
-            t0 = time.time()
-            hs = cfg.response_headers(case["proto"])
-            t1 = time.time()
+            # (the date is GMT whatever the time zone of the process)
+            old_tz = os.environ.get("TZ")
+            if case.get("tz"):
+                os.environ["TZ"] = case["tz"]
+                time.tzset()
+            try:
+                t0 = time.time()
+                hs = cfg.response_headers(case["proto"])
+                t1 = time.time()
+            finally:
+                if case.get("tz"):
+                    if old_tz is None:
+                        os.environ.pop("TZ", None)
+                    else:
+                        os.environ["TZ"] = old_tz
+                    time.tzset()
             tally.clause("headers")
             exp = []
             names = [n for n, _ in hs]
@@ -460,7 +474,7 @@ def run_one(case, tally):
                     except Exception:
                         ok = False
                 if not ok:
-                    findings.append({"clause": "headers", "sig": "C19.headers/date", "detail": "date header %r" % dates})
+                    findings.append({"clause": "headers", "sig": "C19.headers/date", "detail": "date header %r (process time zone %r, epoch %d)" % (dates, case.get("tz"), t0)})
             elif dates:
                 findings.append({"clause": "headers", "sig": "C19.headers/date-unwanted", "detail": "date header present"})
             rest = [(n, v) for n, v in hs if n != b"date"]
